@@ -148,6 +148,43 @@ def concurrent_extras_case(args):
         sc.close()
 
 
+def linked_input_case(args):
+    """the command links its input into its working directory (ln -s) and leaves further files and a sub-directory there, some
+    of which sort before and some after the link: all of them are moved to the same relative location under the working
+    directory"""
+    seed, i = args
+    rng = random.Random(seed * 472882081 + i)
+    sp = t3.Spec(maxtasks=2, bufsize=128)
+    inp = rng.choice(["lk.txt", "data/lk.txt"])
+    sp.files[inp] = "linked\n"
+    s = sp.src("src", [inp])
+    link = rng.choice(["current_input", "a_link", "m_link", "zz_link"])
+    extras = ["aa_first.log", "metrics/stats.txt", "run.log", "zzz_last.txt"]
+    cmd = "ln -s {i:a} %s && cat {i:a} > {o:o}" % link + "".join(" && mkdir -p $(dirname %s) && echo extra %s > %s" % (x, x, x) for x in extras)
+    sp.proc(t3.RawProc("w", cmd, ins=[("a", [(s, "out")])], outs=[("o", "{i:a}.w")]))
+    sc = t3.Scratch()
+    try:
+        sc.plant(sp.files)
+        impl = t3.run_impl(sc, sp, timeout=60)
+        problems = []
+        if impl["rc"] != 0 or not impl["returned"]:
+            problems.append("the workflow fails (exit %s): %s" % (impl["rc"], impl["stderr"][-200:]))
+        else:
+            files = t3.data_files(impl["fs"])
+            missing = [x for x in extras if files.get(x) != "extra %s\n" % x]
+            if missing:
+                problems.append("the command linked its input as %r and created %s in its working directory; after the run %s are not at the same relative location under the working directory" % (link, extras, missing))
+            if files.get(inp + ".w") != "linked\n":
+                problems.append("declared output missing or wrong")
+            lo = t3.leftovers(impl["fs"])
+            if lo:
+                problems.append("temp dir left: %s" % lo[:2])
+        return {"shape": "linked-input", "out": "{i:a}.w", "in": inp, "extra": extras + [link], "rc": impl["rc"], "canonical": True, "ok": impl["rc"] == 0,
+                "problems": problems, "stderr": impl["stderr"][-200:], "spec": sp.text(), "bufsize": sp.bufsize}
+    finally:
+        sc.close()
+
+
 def run(rep, tier, seed):
     proved = vlib.prove(rep, MODULE, THEOREMS)
     ok, msg = vlib.build_ocaml()
@@ -165,6 +202,7 @@ def run(rep, tier, seed):
     # T3: real one-task workflows for each path shape
     cases = [(s, i, seed) for i, s in enumerate(SHAPES * (1 if tier == "quick" else 6) + NONCANON + ["extra-placeholder"])]
     results = t3.run_many(t3_case, cases)
+    results += t3.run_many(linked_input_case, [(seed, i) for i in range(6 if tier == "quick" else 60)])
     results += t3.run_many(concurrent_extras_case, [(seed, i) for i in range(10 if tier == "quick" else 120)])
     found = False
     kf = vlib.known_findings("C13")
@@ -201,7 +239,7 @@ def run(rep, tier, seed):
         rep.violation("; ".join(what), {"kind": "correspondence", "theorem_or_correspondence": "PropC13 / T2 paths", "disagreements": rep.notes.get("disagreements", [])}, nofail=True)
     rep.cov["evaluations"] = len(paths) + len(results)
     rep.cov["distinct_nontrivial"] = len(set(paths)) + len({r["shape"] for r in results})
-    rep.cov["rule"] = "T2: every path of a grammar (prefix ./ ../ ../../ / x segments incl. '..'-like and place-holder-like ones, depth <= 3 or 4) plus random long paths through NewFileIP(..).TempPath/TempDir/FifoPath, the decode of FinalizePaths and splitAllPaths, against the Coq model; T3: one producer + one consumer workflow per output-path shape with random input location and additional files, checked against the property statement itself; 4-12 tasks finishing together (seeded delays at the hook points) that each leave an additional file in the same new sub-directory"
+    rep.cov["rule"] = "T2: every path of a grammar (prefix ./ ../ ../../ / x segments incl. '..'-like and place-holder-like ones, depth <= 3 or 4) plus random long paths through NewFileIP(..).TempPath/TempDir/FifoPath, the decode of FinalizePaths and splitAllPaths, against the Coq model; T3: one producer + one consumer workflow per output-path shape with random input location and additional files, checked against the property statement itself; a command that links its input into its working directory beside other additional files; 4-12 tasks finishing together (seeded delays at the hook points) that each leave an additional file in the same new sub-directory"
     rep.cov["samples"] = [paths[5], paths[len(paths) // 2], {k: results[0][k] for k in ("shape", "in", "extra", "rc", "problems")}]
     rep.notes["input_distribution"] = {"grammar_paths": len(paths), "invalid_paths": sum(1 for x in impl if x == "INVALID"), "t3_shapes": len(SHAPES), "t3_runs": len(results),
                                        "t3_noncanonical": len(NONCANON)}
